@@ -117,7 +117,7 @@ class T:
 class TX:
     """One execution of a ticket."""
 
-    __slots__ = ("run", "td", "xid", "top", "occ", "cnt", "unit", "obj", "repr_armed", "ret_obj", "t", "checked")
+    __slots__ = ("run", "td", "xid", "top", "occ", "cnt", "unit", "obj", "repr_armed", "ret_obj", "t", "checked", "outcome", "kinds", "stack_at_call", "info", "bodies")
 
     def __init__(self, run, td, top):
         self.run = run
@@ -139,6 +139,11 @@ class TX:
         self.ret_obj = None
         self.t = T(self)
         self.checked = False
+        self.outcome = None
+        self.kinds = set()
+        self.stack_at_call = ()
+        self.info = None
+        self.bodies = 0
 
 
 class Actor:
@@ -170,7 +175,13 @@ class Run:
         self.outcomes = {}  # xid-path -> outcome dict
         self.order = []  # keys of outcomes in completion order
         self.faults_fired = {}
+        self.fired_excs = []
+        self.txs = []
         self.injected = []
+        self.suspensions = 0
+        self.cancel_fired_tx = None
+        self.thrown_tx = None
+        self.cancel_plan = None  # {"top": top-level ticket id, "p": n} -> self-cancel at the n-th suspension of that call
         self.sleep = asyncio.sleep
         self.yield_hook = None  # ThreadSim installs a pre-emption callback here
         self.marker_ok = True
@@ -205,6 +216,7 @@ class Run:
     def fired(self, exc):
         k = getattr(exc, "verif_kind", "?")
         self.faults_fired[k] = self.faults_fired.get(k, 0) + 1
+        self.fired_excs.append(exc)
 
     def digest(self):
         h = hashlib.sha256()
@@ -243,6 +255,7 @@ class Run:
         e = cls("fault@%s" % sid)
         e.verif_fault = (tx.xid, sid, kind)
         e.verif_kind = kind
+        e.verif_tx = tx
         self.injected.append(e)
         return e
 
@@ -266,6 +279,7 @@ class Run:
             raise Abort("depth")
         a.stack.append((FRAME_OF[kind], tx.unit, olabel, sid))
         tx.checked = True
+        tx.kinds.add(kind)
         f = cfg.get("fault")
         if f is not None and f.get("occ", 0) != k:
             f = None
@@ -279,14 +293,18 @@ class Run:
             return bool(fl.get(sid, True))
         return bool(cfg.get("truth", True))
 
-    def _pre_fault(self, tx, sid, f):
+    def _pre_fault(self, tx, sid, f, obj=None):
         k = f["kind"]
         if k.startswith("raise:"):
             e = self.make_fault(tx, sid, k)
             self.fired(e)
             raise e
         if k.startswith("repr:"):
-            tx.repr_armed = self.make_fault(tx, sid, k)
+            if obj is not None:
+                # invariant messages render ``self``: arm the object's __repr__
+                object.__setattr__(obj, "_repr_armed", self.make_fault(tx, sid, k))
+            else:
+                tx.repr_armed = self.make_fault(tx, sid, k)
 
     def _result(self, tx, sid, kind, cfg, f, obj):
         truth = self._truth(kind, sid, cfg, obj)
@@ -303,7 +321,7 @@ class Run:
             if self.yield_hook is not None:
                 self.yield_hook(a)
             if f is not None:
-                self._pre_fault(tx, sid, f)
+                self._pre_fault(tx, sid, f, obj if kind == "inv" else None)
             for n in cfg.get("nested", ()):
                 self.nested(a, tx, n)
             return self._result(tx, sid, kind, cfg, f, obj)
@@ -332,6 +350,16 @@ class Run:
 
     async def _pause(self, a, tx, sid, d):
         self.ev("await", sid, tx.xid, d)
+        cp = self.cancel_plan
+        if cp is not None and tx.top.td["id"] == cp["top"]:
+            k = cp.get("seen", 0)
+            cp["seen"] = k + 1
+            if k == cp["p"]:
+                self.faults_fired["cancel@await"] = self.faults_fired.get("cancel@await", 0) + 1
+                cp["fired"] = tx.xid
+                self.cancel_fired_tx = tx
+                asyncio.current_task().cancel()
+        self.suspensions += 1
         await self.sleep(d)
         if _ACTOR.get() is not a:
             raise HarnessError("actor changed across await")
@@ -376,6 +404,7 @@ class Run:
         k = occ.get(key, 0)
         occ[key] = k + 1
         self.ev("body", None, tx.xid, olabel)
+        tx.bodies += 1
         if len(a.stack) >= MAX_DEPTH:
             self.aborted = "depth"
             raise Abort("depth")
@@ -391,6 +420,7 @@ class Run:
             fl = getattr(obj, "_flags", None)
             if fl is not None:
                 fl.update(m)
+        self.ev("body_exit", None, tx.xid, None)
         if cfg.get("returns") == "none":
             return None
         r = Label(tx.xid)
@@ -468,6 +498,8 @@ class Run:
         thunk, unit, olabel = self.world.resolve(tx)
         tx.unit = unit
         tx.obj = olabel
+        tx.stack_at_call = tuple(a.stack)
+        self.txs.append(tx)
         self.ev("call", unit, tx.xid, olabel)
         a.tstack.append(tx)
         a.stack.append(("call", unit, olabel, tx.xid))
@@ -502,9 +534,14 @@ class Run:
             "depth": len(a.tstack),
         }
         self.outcomes[key] = out
+        tx.outcome = out
         self.order.append(key)
         self.ev("return", tx.unit, tx.xid, verdict)
         tx.repr_armed = None
+        if tx.obj is not None:
+            o = self.world.objects.get(tx.obj)
+            if o is not None and getattr(o, "__dict__", {}).get("_repr_armed") is not None:
+                object.__setattr__(o, "_repr_armed", None)
         return out
 
     def call(self, td, parent=None):
@@ -851,6 +888,12 @@ class World:
             ns[ms["name"]] = self._build_member(cname, ms)
 
         def __repr__(self):
+            e = self.__dict__.get("_repr_armed") if hasattr(self, "__dict__") else None
+            if e is not None:
+                object.__setattr__(self, "_repr_armed", None)
+                run.ev("repr", None, None, getattr(self, "_label", "?"))
+                run.fired(e)
+                raise e
             return "O<%s>" % getattr(self, "_label", "?")
 
         ns["__repr__"] = __repr__
@@ -909,6 +952,17 @@ class World:
                 return "%s.%s" % (k.__name__, member)
         return "%s.%s" % (cls.__name__, member)
 
+    def _info(self, f, cls, kind):
+        """What the real library has attached to the callable (used only to know whether contracts exist)."""
+        ck = _ck.find_checker(f) if f is not None else None
+        pre = getattr(ck, "__preconditions__", None) if ck is not None else None
+        post = getattr(ck, "__postconditions__", None) if ck is not None else None
+        info = {"kind": kind, "has_pre": bool(pre) and any(pre), "has_post": bool(post)}
+        if cls is not None:
+            info["has_call_inv"] = bool(getattr(cls, "__invariants_on_call__", None))
+            info["has_inv"] = bool(getattr(cls, "__invariants__", None))
+        return info
+
     def resolve(self, tx):
         td = tx.td
         fn = td["fn"]
@@ -916,18 +970,35 @@ class World:
         op = td.get("op", "call")
         if fn in self.funcs and op == "call" and td.get("obj") is None and td.get("cls") is None:
             f = self.funcs[fn]
+            tx.info = self._info(f, None, "func")
             return (lambda: f(t)), fn, None
         if op == "new":
             cls = self.classes[td["cls"]]
+            tx.info = self._info(cls.__dict__.get("__init__"), cls, "ctor")
             return (lambda: cls(t)), self.defining_unit(cls, "__init__"), td.get("obj")
         if td.get("cls") is not None and td.get("obj") is None:
             cls = self.classes[td["cls"]]
+            raw = None
+            for k in cls.__mro__:
+                if fn in k.__dict__:
+                    raw = k.__dict__[fn]
+                    break
+            tx.info = self._info(getattr(raw, "__func__", raw), None, "static" if isinstance(raw, staticmethod) else "class")
             return (lambda: getattr(cls, fn)(t)), self.defining_unit(cls, fn), None
         obj = self.objects.get(td["obj"])
         if obj is None:
             raise HarnessError("unknown object %r" % td["obj"])
         cls = type(obj)
         if op == "call":
+            raw = None
+            for k in cls.__mro__:
+                if fn in k.__dict__:
+                    raw = k.__dict__[fn]
+                    break
+            if isinstance(raw, (staticmethod, classmethod)):
+                tx.info = self._info(raw.__func__, None, "static" if isinstance(raw, staticmethod) else "class")
+                return (lambda: getattr(obj, fn)(t)), self.defining_unit(cls, fn), None
+            tx.info = self._info(raw, cls, "method")
             return (lambda: getattr(obj, fn)(t)), self.defining_unit(cls, fn), td["obj"]
         raise HarnessError("unknown op %r" % op)
 
